@@ -9,6 +9,7 @@ package main
 import (
 	"errors"
 	"fmt"
+	"reflect"
 	"strings"
 
 	z "github.com/Oudwins/zog"
@@ -319,10 +320,38 @@ func runProbes() probeResults {
 		var a8, b8 [][]string
 		var a9, b9 []*int
 		var a10, b10 []Box
-		ok = ok && noPanic(func() { s8.Validate(&a8); s8.Validate(&b8); s9.Validate(&a9); s9.Validate(&b9); s10.Validate(&a10); s10.Validate(&b10) })
+		ok = ok && noPanic(func() {
+			s8.Validate(&a8)
+			s8.Validate(&b8)
+			s9.Validate(&a9)
+			s9.Validate(&b9)
+			s10.Validate(&a10)
+			s10.Validate(&b10)
+		})
 		ok = ok && d8[1][0] == "x" && x8 == 8 && anyInts[0] == 1
 		ok = ok && len(b8) == 2 && b8[0] == nil && b8[1][0] == "MUTATED" && len(b9) == 2 && b9[0] == nil && *b9[1] == 99
 		ok = ok && len(b10) == 2 && b10[0].Any.([]int)[0] == 99 && b10[0].M == nil && b10[1].Any == nil && b10[1].L == nil
+		// and first of all the validated value IS the default (C04): equal to it, part by part
+		{
+			type Item struct {
+				Name *string
+				Qty  *int
+				Any  any
+				M    map[string][]int
+			}
+			nm, q := "widget", 3
+			dA := []*int{&x8, &q}
+			dB := []Item{{Name: &nm, Qty: &q, Any: []string{"k"}, M: map[string][]int{"a": {1, 2}}}}
+			dC := [][]*int{{&q}, nil}
+			sA := z.Slice(z.Ptr(z.Int()))
+			sB := z.Slice(z.Struct(z.Schema{"name": z.Ptr(z.String()), "qty": z.Ptr(z.Int())}))
+			sC := z.Slice(z.Slice(z.Ptr(z.Int())))
+			var vA []*int
+			var vB []Item
+			var vC [][]*int
+			ok = ok && noPanic(func() { sA.Default(dA).Validate(&vA); sB.Default(dB).Validate(&vB); sC.Default(dC).Validate(&vC) })
+			ok = ok && reflect.DeepEqual(vA, dA) && reflect.DeepEqual(vB, dB) && reflect.DeepEqual(vC, dC)
+		}
 		r.SliceDefaultDeep = r.SliceDefaultDeep && ok
 	}
 	return r
